@@ -401,7 +401,13 @@ def write_evidence(pid, tier, seed, coverage, wall_s, violations, assumptions=No
         "wall_s": round(float(wall_s), 2),
         "violations": int(violations),
     }
-    with open(os.path.join(VERIF, "evidence", f"{pid}.json"), "w") as f:
+    # evidence/<id>.json describes runs against /repo itself; a run against a scratch tree (VERIF_REPO, used to
+    # try seeded changes) leaves it alone and writes under .scratch/
+    target = os.path.join(VERIF, "evidence", f"{pid}.json")
+    if os.path.realpath(REPO) != "/repo":
+        os.makedirs(os.path.join(VERIF, ".scratch", "evidence_other_trees"), exist_ok=True)
+        target = os.path.join(VERIF, ".scratch", "evidence_other_trees", f"{pid}.json")
+    with open(target, "w") as f:
         json.dump(ev, f, indent=1, default=repr)
     return ev
 
